@@ -75,12 +75,6 @@ theorem live_modChan (st : Core) (c : ChanId) (f : Chan → Chan) (hf : LiveFram
       rw [hf.wires, hf.unsub]
       exact h.wires b (List.mem_of_getElem? hb)
 
-theorem alookup_aerase_some {κ ν : Type} [DecidableEq κ] (k id : κ) (v : ν) (l : List (κ × ν))
-    (h : alookup k (aerase id l) = some v) : alookup k l = some v ∧ k ≠ id := by
-  by_cases e : k = id
-  · subst e; rw [alookup_aerase_self] at h; simp at h
-  · rw [alookup_aerase_ne k id l e] at h; exact ⟨h, e⟩
-
 /-- erasing any request key -/
 theorem live_erase (st : Core) (id : Id) (h : Live st) :
     Live { st with mgr := { st.mgr with requests := aerase id st.mgr.requests } } where
